@@ -218,7 +218,7 @@ def run_cli(r: Runner, scn: dict):
     r.tid += 1
     r.scn[r.tid] = scn
     it = r.it
-    out = d / "out.bin"
+    out = d / ("out.cache.0.bin" if r.tid % 2 else "out.bin")
     want = []
     uris = []
     if scn["sub"] == "from_envelope":
